@@ -576,6 +576,103 @@ func extractC14() *lean {
 		}
 	}
 
+	// ---- state.go WritePayload: the `payloadWritten` guard of the AfterCommit notification, as a trace of the statements
+	//      that matter (where the flag is set, the skip return, saveEvent, the marker, notify) with their closure
+	//      (top / tx = the write transaction / afterCommit) and the if-conditions they sit under
+	{
+		var trace []string
+		interesting := func(n ast.Node) []string {
+			var out []string
+			ast.Inspect(n, func(x ast.Node) bool {
+				if _, ok := x.(*ast.FuncLit); ok {
+					return false
+				}
+				if ce, ok := x.(*ast.CallExpr); ok {
+					switch f := exprString(ce.Fun); f {
+					case "s.saveEvent", "s.notify", "markPayloadEventSaved", "s.payloadStore.writePayload":
+						out = append(out, c14Expr(ce))
+					}
+				}
+				return true
+			})
+			return out
+		}
+		var walk func(stmts []ast.Stmt, ctx string, conds []string)
+		emit := func(ctx string, conds []string, what string) {
+			pre := ctx + ": "
+			if len(conds) > 0 {
+				pre += "if " + strings.Join(conds, " && ") + " => "
+			}
+			trace = append(trace, pre+what)
+		}
+		walkCall := func(ce *ast.CallExpr, conds []string) bool {
+			if exprString(ce.Fun) != "s.db.Write" {
+				return false
+			}
+			for _, a := range ce.Args {
+				if fl, ok := a.(*ast.FuncLit); ok {
+					walk(fl.Body.List, "tx", nil)
+				}
+				if c2, ok := a.(*ast.CallExpr); ok && exprString(c2.Fun) == "stoabs.AfterCommit" && len(c2.Args) == 1 {
+					if fl, ok := c2.Args[0].(*ast.FuncLit); ok {
+						walk(fl.Body.List, "afterCommit", nil)
+					}
+				}
+			}
+			return true
+		}
+		walk = func(stmts []ast.Stmt, ctx string, conds []string) {
+			for _, st := range stmts {
+				switch x := st.(type) {
+				case *ast.AssignStmt:
+					if len(x.Lhs) == 1 && exprString(x.Lhs[0]) == "payloadWritten" {
+						emit(ctx, conds, "payloadWritten "+x.Tok.String()+" "+c14Expr(x.Rhs[0]))
+						continue
+					}
+					for _, c := range interesting(x) {
+						emit(ctx, conds, c)
+					}
+				case *ast.IfStmt:
+					if x.Init != nil {
+						for _, c := range interesting(x.Init) {
+							emit(ctx, conds, c)
+						}
+					}
+					walk(x.Body.List, ctx, append(append([]string{}, conds...), c14Expr(x.Cond)))
+					if eb, ok := x.Else.(*ast.BlockStmt); ok {
+						walk(eb.List, ctx, append(append([]string{}, conds...), "!("+c14Expr(x.Cond)+")"))
+					}
+				case *ast.ReturnStmt:
+					if len(x.Results) == 1 {
+						if ce, ok := x.Results[0].(*ast.CallExpr); ok && walkCall(ce, conds) {
+							continue
+						}
+						if cs := interesting(x.Results[0]); len(cs) > 0 {
+							for _, c := range cs {
+								emit(ctx, conds, "return "+c)
+							}
+							continue
+						}
+						if ctx == "tx" && len(conds) > 0 && exprString(x.Results[0]) == "nil" {
+							emit(ctx, conds, "return nil")
+						}
+					}
+				case *ast.ExprStmt:
+					if ce, ok := x.X.(*ast.CallExpr); ok && walkCall(ce, conds) {
+						continue
+					}
+					for _, c := range interesting(x) {
+						emit(ctx, conds, c)
+					}
+				}
+			}
+		}
+		if fd := funcDecl(sf, "WritePayload"); fd != nil && fd.Body != nil {
+			walk(fd.Body.List, "top", nil)
+		}
+		l.def("writePayloadGuardTrace", "List String", leanStrList(trace), trace)
+	}
+
 	// ---- network.go Network.Start: the resume loop - where Run() is called. Every notifier of state.Notifiers() must get
 	//      Run() unconditionally: record the range expression, the Run calls, every condition on the path from the loop
 	//      body to a Run call, every other call in the loop and every continue/break.
